@@ -18,6 +18,131 @@ type Term struct {
 	K    int64
 	Name string
 	id   int
+	// static value range: for variables an optional tighter range than the type's (digit variables), for other
+	// terms a cache of rng()
+	rlo, rhi int64
+	rstate   int8 // 0 not computed, 1 known, 2 unknown
+}
+
+// mkVarRange: a variable whose values are known to lie in [lo,hi] (the caller asserts that in the path condition too).
+func mkVarRange(name string, w int, s bool, lo, hi int64) *Term {
+	return &Term{Op: "var", Name: name, W: w, S: s, rlo: lo, rhi: hi, rstate: 1}
+}
+
+func typeRange(w int, s bool) (int64, int64) {
+	if s {
+		return -(int64(1) << uint(w-1)), int64(1)<<uint(w-1) - 1
+	}
+	return 0, int64(1)<<uint(w) - 1
+}
+
+const rngCap = int64(1) << 61
+
+// mathRange: range of the un-wrapped mathematical value of an arithmetic node (add/sub/mul over the operands' ranges).
+func (t *Term) mathRange() (lo, hi int64, ok bool) {
+	if len(t.Args) != 2 {
+		return 0, 0, false
+	}
+	al, ah, ok1 := t.Args[0].rng()
+	bl, bh, ok2 := t.Args[1].rng()
+	if !ok1 || !ok2 {
+		return 0, 0, false
+	}
+	switch t.Op {
+	case "add":
+		lo, hi = al+bl, ah+bh
+	case "sub":
+		lo, hi = al-bh, ah-bl
+	case "mul":
+		for _, x := range [2]int64{al, ah} {
+			for _, y := range [2]int64{bl, bh} {
+				if (x > 1<<30 || x < -(1<<30)) && (y > 1<<30 || y < -(1<<30)) {
+					return 0, 0, false
+				}
+			}
+		}
+		c := [4]int64{al * bl, al * bh, ah * bl, ah * bh}
+		lo, hi = c[0], c[0]
+		for _, v := range c[1:] {
+			if v < lo {
+				lo = v
+			}
+			if v > hi {
+				hi = v
+			}
+		}
+	default:
+		return 0, 0, false
+	}
+	if lo < -rngCap || hi > rngCap {
+		return 0, 0, false
+	}
+	return lo, hi, true
+}
+
+// rng: a static over-approximation of the term's value (after wrapping to its type), from the types and the declared
+// ranges of variables only - no path condition involved.
+func (t *Term) rng() (lo, hi int64, ok bool) {
+	switch t.rstate {
+	case 1:
+		return t.rlo, t.rhi, true
+	case 2:
+		return 0, 0, false
+	}
+	set := func(l, h int64, k bool) (int64, int64, bool) {
+		if k && l >= -rngCap && h <= rngCap {
+			t.rlo, t.rhi, t.rstate = l, h, 1
+			return l, h, true
+		}
+		t.rstate = 2
+		return 0, 0, false
+	}
+	if t.W == 0 {
+		return set(0, 1, true)
+	}
+	narrow := t.W < 62
+	var tl, th int64
+	if narrow {
+		tl, th = typeRange(t.W, t.S)
+	}
+	fit := func(l, h int64, k bool) (int64, int64, bool) {
+		if k && (!narrow || (l >= tl && h <= th)) {
+			return set(l, h, true)
+		}
+		if narrow {
+			return set(tl, th, true)
+		}
+		return set(0, 0, false)
+	}
+	switch t.Op {
+	case "const":
+		return set(t.K, t.K, true)
+	case "var":
+		if narrow {
+			return set(tl, th, true)
+		}
+		return set(0, 0, false)
+	case "add", "sub", "mul":
+		return fit(t.mathRange())
+	case "conv":
+		return fit(t.Args[0].rng())
+	case "ite":
+		al, ah, ok1 := t.Args[1].rng()
+		bl, bh, ok2 := t.Args[2].rng()
+		if ok1 && ok2 {
+			if bl < al {
+				al = bl
+			}
+			if bh > ah {
+				ah = bh
+			}
+			return fit(al, ah, true)
+		}
+	}
+	if narrow {
+		return set(tl, th, true)
+	}
+	return set(0, 0, false)
 }
 
 func (t *Term) IsBool() bool  { return t.W == 0 }
@@ -486,6 +611,12 @@ func (p *printer) strLIA(t *Term) string {
 		if t.W >= 64 {
 			return e // 64-bit: overflow handled by side obligations
 		}
+		// no wrap-around possible by the static ranges of the operands: the mod is left out
+		if lo, hi, ok := t.mathRange(); ok {
+			if tl, th := typeRange(t.W, t.S); lo >= tl && hi <= th {
+				return e
+			}
+		}
 		return wrapLIA(e, t.W, t.S)
 	}
 	bin := func(op string) string { return "(" + op + " " + p.str(a[0]) + " " + p.str(a[1]) + ")" }
@@ -545,6 +676,11 @@ func (p *printer) strLIA(t *Term) string {
 		if t.W >= 64 && x.W >= 64 {
 			// int64<->uint64 reinterpretation
 			return wrapLIA(e, 64, t.S)
+		}
+		if lo, hi, ok := x.rng(); ok && t.W < 62 {
+			if tl, th := typeRange(t.W, t.S); lo >= tl && hi <= th {
+				return e
+			}
 		}
 		return wrapLIA(e, t.W, t.S)
 	}
